@@ -465,6 +465,30 @@ class PCBO(PUBO):
             for k, v in args[0]._constraints.items():
                 self._constraints.setdefault(k, []).extend(v)
 
+    def __imul__(self, other):
+        """__imul__.
+
+        Define the self multiplication of the PCBO. Multiplying by a dictionary
+        rebuilds the terms (see ``DictArithmetic.__imul__``); the recorded
+        constraints and the ancilla counter are kept, exactly as they are when
+        multiplying by a number.
+
+        Parameters
+        ----------
+        other : a dict or number.
+
+        Return
+        ------
+        self : PCBO object.
+            Updates in place.
+
+        """
+        constraints, ancilla = self._constraints, self._ancilla
+        # use self.__class__ here because PCSO uses this code as well.
+        super(self.__class__, self).__imul__(other)
+        self._constraints, self._ancilla = constraints, ancilla
+        return self
+
     @property
     def constraints(self):
         """constraints.
